@@ -1103,6 +1103,41 @@ def cc_tables(ctx):
                                 if v[0] == 'agg':
                                     t2[lit[0][1]] = v[1].split('::')[-1]
     inv = {v: k for k, v in t1.items()}
+    table_driven = False
+    if not t2 and len(fb.exits()) == 1:
+        # `Self::ALL.into_iter().find(|cc| cc.as_str() == s).ok_or(())`: the inverse of as_str by construction, provided ALL lists
+        # every variant (once) and the names are distinct
+        e_ = strip(expand(fb, fb.exits()[0]['expr']))
+        if is_call(e_, 'ok_or') and e_[2]:
+            fnd = strip(e_[2][0])
+            if is_call(fnd, 'Iterator::find') and len(fnd[2]) == 2 and strip(fnd[2][1])[0] == 'closure' and strip(fnd[2][1])[1] in P.fns:
+                src_ = strip(fnd[2][0])
+                while src_[0] == 'call' and src_[2] and re.search(r'(IntoIterator::into_iter|IntoIterator>::into_iter|::iter|Iterator::copied|Iterator::cloned|Deref>::deref)$', src_[1] + ' ' + (src_[3] if len(src_) > 3 else '')):
+                    src_ = strip(src_[2][0])
+                listed = []
+                if src_[0] == 'array':
+                    listed = [strip(y)[1].split('::')[-1] for y in src_[1] if strip(y)[0] == 'agg']
+                if src_[0] == 'const' and src_[1] in getattr(P, 'const_fns', {}):
+                    cfn = P.const_fns[src_[1]]
+                    for x in cfn.exits():
+                        v_ = strip(expand(cfn, x['expr']))
+                        if v_[0] == 'array':
+                            listed = [strip(y)[1].split('::')[-1] for y in v_[1] if strip(y)[0] == 'agg']
+                pc_ = strip(fnd[2][1])
+                pf_ = P.fns[pc_[1]]
+                caps_ = pc_[2] if len(pc_) > 2 else []
+                ex_ = [strip(expand(pf_, x['expr'])) for x in pf_.exits()]
+                cmp_ok = len(ex_) == 1 and not pf_.switches() and ex_[0][0] == 'call' and re.search(r'::eq$', ex_[0][1]) and len(ex_[0][2]) == 2
+                if cmp_ok:
+                    a_, b_ = strip(ex_[0][2][0]), strip(ex_[0][2][1])
+                    if a_[0] == 'upvar':
+                        a_, b_ = b_, a_
+                    given = b_[0] == 'upvar' and b_[1] < len(caps_) and strip(caps_[b_[1]])[0] == 'arg' and strip(caps_[b_[1]])[1] == 1
+                    named = is_call(a_, 'CallingConvention::as_str') and any(isinstance(y, tuple) and y and y[0] in ('arg', 'carg') for y in walk(a_))
+                    cmp_ok = bool(given and named)
+                if cmp_ok and sorted(listed) == sorted(variants) and len(set(t1.values())) == len(t1):
+                    t2 = dict(inv)
+                    table_driven = True
     ok = sorted(t1) == sorted(variants) and len(variants) >= 7 and t2 == inv
     ctx.ob(['C16', 'C05', 'C04', 'C06'], 'R-TABLE', 'cc|inverse-tables', ok, 'as_str covers every variant of CallingConvention and from_str is exactly its inverse: %s' % t1, loc(fa.span))
     abis = rustc_abis()
@@ -1111,6 +1146,8 @@ def cc_tables(ctx):
     ctx.ob(['C16'], 'R-TABLE', 'cc|compares-the-given-name', not scrut_bad and len(t2) >= 7,
            'from_str compares the name as it was written with the table entries (no normalisation in front of the table): %s' % sorted(set(scrut_bad))[:2], loc(fb.span))
     e = [x for x in fb.exits() if x['kind'] == 'err_own']
+    if table_driven:
+        e = [1]         # `find(..).ok_or(())`: no entry of the table has that name ⇒ Err
     ctx.ob(['C16'], 'R-TABLE', 'cc|unknown-is-error', len(e) == 1, 'from_str returns Err for any other string', loc(fb.span))
 
 
